@@ -40,3 +40,35 @@ Print Assumptions C09_as_fresh.
 
 Example C09_example : idle fresh_rst /\ ~ idle (mk_rst false true true [] false).
 Proof. split; [repeat split|intros (_ & F & _); discriminate]. Qed.
+
+(** ---- non-vacuity per theorem (wp-audit): every theorem above has [idle s] as its only premise; [C09_example]
+    shows it is satisfiable, the instance below that the statements are about something: ---- *)
+(** a history of five runs on one recorder: a kept recording with forced sampling, one discarded on the way, a
+    replay of the first, a replay of an id that does not exist, a run with recording disabled - started from two
+    DIFFERENT idle states (recording_enabled differs; the caller sets it before every run) *)
+Definition c09_out : ocfg := {| o_alias := U"send"; o_static := true; o_handler := None; o_fail := true; o_default := VNone |}.
+Definition c09_op (body : code) : opdef := {| op_class := U"Op"; op_classlevel := false; op_extractor := XNone; op_body := body |}.
+Definition c09_P : prm := {| p_rate := 1 # 2; p_ignore := false; p_skipped := false; p_copy := false |}.
+Definition c09_hist : list run :=
+  [ RRecord true c09_P (c09_op (Force (Out c09_out (Ret (Lit VNone)) [Lit (VInt 1)] [] (Ret (Var 0))))) false;
+    RRecord true c09_P (c09_op (Out c09_out (Discard (Raise (U"IOError"))) [] [] (Ret (Var 0)))) false;
+    RPlay true 0%nat (PfOp (c09_op (Out c09_out (Ret (Lit VNone)) [Lit (VInt 1)] [] (Ret (Var 0)))));
+    RPlay false 7%nat (PfRaises (U"ValueError"));
+    RRecord false c09_P (c09_op (Out c09_out (Ret (Lit VNone)) [Lit (VInt 1)] [] Interrupt)) true ].
+Example C09_history_nonvacuous :
+  let s1 := fresh_rst in
+  let s2 := mk_rst false true false [] false in
+  let draws := fun _ : nat => 3 # 4 in
+  idle s1 /\ idle s2 /\ s1 <> s2 /\
+  map ob_outcome (run_history draws c09_hist s1 fresh_world) =
+    [OVal VNone; OExn (EUser (U"IOError")); OVal VNone; OExn ENoSuchRecording; OInt] /\
+  map (fun ob => length (ob_cass ob)) (run_history draws c09_hist s1 fresh_world) = [2; 2; 1; 1; 0]%nat /\
+  run_history draws c09_hist s2 fresh_world = run_history draws c09_hist s1 fresh_world.
+Proof. vm_compute. repeat split; try reflexivity. discriminate. Qed.
+
+(** C09_flag_restored has no premise; with the flag set on entry (code running inside an interception) it is set afterwards *)
+Example C09_flag_restored_nonvacuous :
+  let '(o, s', l) := rec_exec c09_P (Try (Out c09_out (Discard (Raise (U"IOError"))) [] [] (Ret (Var 0))) (Ret (Lit (VInt 1)))) []
+                              (mk_rst true true false [] true) in
+  icpt s' = true /\ active s' = false /\ o = OVal (VInt 1) /\ length l = 4%nat.
+Proof. vm_compute. repeat split; reflexivity. Qed.
